@@ -5,7 +5,7 @@
    b32decode (Sym/Base32.v); the right-hand specifications (address_of, valid_address_spec, text_to_bytes, in_alphabet_spec,
    spec_size, spec_encoded_size, spec_checksum_size; Sym/AddressProofs.v, head of file) are fixed text.
    A network is (flavor, identifier): flavor Symbol hashes with SHA3-256, flavor Nem with Keccak-256. *)
-From Symv Require Import Base.Bytes Base.PyOps Sym.Keccak Sym.KeccakProofs Sym.Ripemd Sym.Base32 Sym.Address Sym.AddressProofs.
+From Symv Require Import Base.Bytes Base.PyOps Sym.Keccak Sym.KeccakProofs Sym.Ripemd Sym.Base32 Sym.Address Sym.AddressProofs Sym.AddressProofs2.
 Open Scope Z_scope.
 
 (* ---- parametric in the address hasher H (per flavor) and in RIPEMD-160 R: only output lengths are used ---- *)
@@ -46,6 +46,14 @@ Theorem base32_roundtrip : forall fl b,
   address_from_string fl (address_to_string fl b) = Ok b.
 Proof. exact AddressProofs.string_roundtrip. Qed.
 Print Assumptions base32_roundtrip.
+
+(* the text of an address determines the address: str is injective on well-formed byte strings of the network's address size *)
+Theorem address_text_injective : forall fl a b,
+  length a = (match fl with Symbol => 24 | Nem => 25 end)%nat -> wf_bytes a = true ->
+  length b = (match fl with Symbol => 24 | Nem => 25 end)%nat -> wf_bytes b = true ->
+  address_to_string fl a = address_to_string fl b -> a = b.
+Proof. exact AddressProofs2.address_text_injective. Qed.
+Print Assumptions address_text_injective.
 
 (* the general lemma behind it: any length that is a multiple of 5 (each 5-byte group is one 40-bit number, read in base 256 and in base 32) *)
 Theorem base32_roundtrip_any_multiple_of_5 : forall n b,
